@@ -114,6 +114,8 @@ struct Merged {
     discarded: u64,
     discard_reasons: BTreeMap<String, u64>,
     counters: BTreeMap<String, u64>,
+    /// some worker hit DISTINCT_CAP: the distinct counts are lower bounds
+    distinct_capped: bool,
     case_digests: BTreeSet<u64>,
     sched_digests: BTreeSet<u64>,
     nontrivial_pairs: BTreeSet<u64>,
@@ -135,14 +137,37 @@ fn now_ms() -> u64 {
         .unwrap_or(0)
 }
 
-/// Wall-clock watchdog of the harness itself: a unit that runs longer than the limit makes the
-/// process abort, which the driver reports as a crash (hang) of that unit.
+/// CPU time (user + system, all threads) this process has consumed so far, in milliseconds;
+/// harness-only, never visible to a simulation. 100 clock ticks per second on Linux.
+fn cpu_ms() -> u64 {
+    let Ok(stat) = std::fs::read_to_string("/proc/self/stat") else { return 0 };
+    let Some(rest) = stat.rfind(')').map(|i| &stat[i + 1..]) else { return 0 };
+    let f: Vec<&str> = rest.split_whitespace().collect();
+    // after the command name: state is f[0], utime is the 14th field of the line = f[11], stime f[12]
+    let t = |i: usize| f.get(i).and_then(|v| v.parse::<u64>().ok()).unwrap_or(0);
+    (t(11) + t(12)) * 10
+}
+
+/// per worker and per set (cases, schedules, non-trivial pairs)
+const DISTINCT_CAP: usize = 1_500_000;
+
+static UNIT_STARTED_CPU: std::sync::atomic::AtomicU64 = std::sync::atomic::AtomicU64::new(0);
+
+/// Watchdog of the harness itself: a unit that *computes* for longer than the limit (CPU time of
+/// this process, so a loaded machine does not trip it) or makes no progress for 15 times the limit
+/// of wall-clock time (blocked: costs nothing to wait for) makes the process abort, which the
+/// driver reports as a crash (hang) of that unit.
 fn start_watchdog(limit_s: u64) {
     std::thread::spawn(move || loop {
         std::thread::sleep(std::time::Duration::from_millis(500));
         let started = UNIT_STARTED.load(std::sync::atomic::Ordering::SeqCst);
-        if started != 0 && now_ms().saturating_sub(started) > limit_s * 1000 {
-            eprintln!("watchdog: unit exceeded {limit_s}s, aborting the worker");
+        if started == 0 {
+            continue;
+        }
+        let cpu = cpu_ms().saturating_sub(UNIT_STARTED_CPU.load(std::sync::atomic::Ordering::SeqCst));
+        let wall = now_ms().saturating_sub(started);
+        if cpu > limit_s * 1000 || wall > limit_s * 15_000 {
+            eprintln!("watchdog: unit exceeded {limit_s}s of CPU time ({cpu} ms) or {}s of wall-clock time ({wall} ms), aborting the worker", limit_s * 15);
             std::process::abort();
         }
     });
@@ -155,6 +180,7 @@ fn worker(prop: &dyn Property, seed: u64, tier: Tier, from: u64, to: u64, stride
     while unit < to {
         // progress marker: if this process dies (stack overflow, abort) the driver knows where
         println!("UNIT {unit}");
+        UNIT_STARTED_CPU.store(cpu_ms(), std::sync::atomic::Ordering::SeqCst);
         UNIT_STARTED.store(now_ms(), std::sync::atomic::Ordering::SeqCst);
         let mut unit_log = Digest::new();
         let mut sink = |r: RunReport| {
@@ -167,9 +193,15 @@ fn worker(prop: &dyn Property, seed: u64, tier: Tier, from: u64, to: u64, stride
             for (k, v) in r.counters {
                 *m.counters.entry(k).or_default() += v;
             }
-            m.case_digests.insert(r.case_digest);
-            m.sched_digests.insert(r.schedule_digest);
-            if r.nontrivial {
+            // distinctness is counted exactly up to DISTINCT_CAP entries per worker and set; beyond
+            // that (thorough tiers only) the reported figures are lower bounds, flagged in the evidence
+            if m.case_digests.len() < DISTINCT_CAP {
+                m.case_digests.insert(r.case_digest);
+            }
+            if m.sched_digests.len() < DISTINCT_CAP {
+                m.sched_digests.insert(r.schedule_digest);
+            }
+            if r.nontrivial && m.nontrivial_pairs.len() < DISTINCT_CAP {
                 m.nontrivial_pairs
                     .insert(r.case_digest ^ r.schedule_digest.rotate_left(21));
             }
@@ -203,7 +235,10 @@ fn worker(prop: &dyn Property, seed: u64, tier: Tier, from: u64, to: u64, stride
         m.log_digest.push((unit, unit_log.u64()));
         unit += stride;
     }
+    // no unit is running any more: serialising a large result must not look like a hung unit
+    UNIT_STARTED.store(0, std::sync::atomic::Ordering::SeqCst);
     json!({
+        "distinct_capped": m.case_digests.len() >= DISTINCT_CAP || m.sched_digests.len() >= DISTINCT_CAP || m.nontrivial_pairs.len() >= DISTINCT_CAP,
         "runs": m.runs,
         "discarded": m.discarded,
         "discard_reasons": m.discard_reasons,
@@ -224,6 +259,7 @@ fn merge(into: &mut Merged, w: &J) {
         return;
     }
     into.runs += w["runs"].as_u64().unwrap_or(0);
+    into.distinct_capped |= w["distinct_capped"].as_bool().unwrap_or(false);
     into.discarded += w["discarded"].as_u64().unwrap_or(0);
     if let Some(m) = w["discard_reasons"].as_object() {
         for (k, v) in m {
@@ -527,6 +563,7 @@ pub fn run_batch(prop: &dyn Property, tier: Tier) -> i32 {
         "discard_reasons": m.discard_reasons,
         "distinct_cases": m.case_digests.len(),
         "distinct_schedules": m.sched_digests.len(),
+        "distinct_counts_are_lower_bounds": m.distinct_capped,
         "work_units": units,
         "workers": workers,
         "simulated_runs_per_hour": runs_per_hour.round(),
